@@ -270,6 +270,9 @@ func nwDist(r *rand.Rand) float64 {
 	case 14:
 		return math.MaxFloat64
 	default:
+		if r.Intn(2) == 0 { // ordinary measurements: full-precision decimals of moderate size (written without an exponent)
+			return r.Float64() * []float64{1, 10, 10, 1000, 1e6}[r.Intn(5)]
+		}
 		return float64(r.Intn(1000)) / 8
 	}
 }
